@@ -94,6 +94,13 @@ def grid(tier):
                                "eol": eol, "final": fin, "before": [], "noise": {}, "sep": " ", "lead": " ", "trailpad": ""}
     for case in _grid_tab():
         yield case
+    # the WRAP item of an unwrapped file in other spellings, and more / fewer columns than declared curves
+    for spell in ("NO", "No", "no", "N", "FALSE", "n/a"):
+        for delta in (0, -1, 1, 2):
+            for r, c in ((1, 2), (3, 3), (4, 1), (2, 5)):
+                for after in ("last", "P"):
+                    yield {"rows": [[cell(i, j) for j in range(c)] for i in range(r)], "trail": "none", "after": after, "eol": "\n", "final": True,
+                           "before": [], "noise": {}, "sep": " ", "lead": " ", "trailpad": "", "wrapspell": spell, "declared_delta": delta}
 
 
 def _grid_tab():
@@ -157,13 +164,14 @@ def random_case(rng, tier):
     return {"rows": rows, "trail": rng.choice(list(TRAILING)), "after": rng.choice(list(AFTER)),
             "eol": rng.choice(["\n", "\n", "\r\n"]), "final": rng.random() < 0.7,
             "before": rng.choice([[], ["P"], ["O"], ["P", "O"], ["X"]]), "noise": noise, "sep": sep,
-            "lead": rng.choice(["", " ", "    ", "\t"]) if not dlm else "", "trailpad": rng.choice(["", " ", "   ", "\t"]) if not dlm else "", "kinds": kinds, "dlm": dlm}
+            "lead": rng.choice(["", " ", "    ", "\t"]) if not dlm else "", "trailpad": rng.choice(["", " ", "   ", "\t"]) if not dlm else "", "kinds": kinds, "dlm": dlm,
+            "wrapspell": rng.choice(["NO"] * 6 + ["No", "no", "N", "False"]), "declared_delta": rng.choice([0] * 6 + [-1, 1, 2])}
 
 
 def build_text(case):
     rows = case["rows"]
     c = len(rows[0])
-    secs = lastext.std_header(c, dlm=case.get("dlm"))
+    secs = lastext.std_header(max(0, c + case.get("declared_delta", 0)), dlm=case.get("dlm"), wrap=case.get("wrapspell", "NO"))
     secs += after_sections(case.get("before", []))
     noise = dict(case.get("noise", {}))
     if TRAILING[case["trail"]]:
